@@ -222,6 +222,44 @@ def server_cases(tier):
                         yield (session, item, off, f * (TD if prev == b'DATA\r\n' else TC))
 
 
+def judge_server_deaf(session, n_noop):
+    """A client that never reads: it sends the session's first lines and then NOOPs, all at once; the server's replies pile up
+    in a 64-byte window.  The session must still be over within the command timeout of the last command the server could take."""
+    spec = SESSIONS[session]
+    rec = {'end': None, 'exc': None}
+    with World(Chooser(), max_steps=5000) as w:
+        net = Net(w)
+        csock, ssock = net.pair(capacity_back=64)
+        saved = edge_smtp.PtrLookup
+        edge_smtp.PtrLookup = FakePtrLookup
+        try:
+            edge = SmtpEdge(None, NullQueue(), command_timeout=TC, data_timeout=TD, hostname='mx.test')
+
+            def handler():
+                try:
+                    edge.handle(ssock, ('192.0.2.1', 4321))
+                except gevent.GreenletExit:
+                    raise
+                except BaseException as e:
+                    rec['exc'] = type(e).__name__
+                rec['end'] = w.now
+            hg = gevent.spawn(handler)
+            lines = [l for l in spec['lines'] if isinstance(l, bytes)][:2]
+            csock.sendall(b''.join(lines) + b'NOOP\r\n' * n_noop)
+            w.run_until_quiescent()
+        finally:
+            edge_smtp.PtrLookup = saved
+        alive = not hg.dead
+    base = {'side': 'server', 'session': session}
+    desc = 'session %s: the client sends %r + %d x NOOP and never reads a reply (64-byte window): handler ended at %r (%s)' % (
+        session, b''.join(lines), n_noop, rec['end'], rec['exc'])
+    if alive or rec['end'] is None:
+        return [(dict(base, kind='session-never-closed', point='client-does-not-read'), desc)]
+    if rec['end'] > 2 * TC + 1e-6:
+        return [(dict(base, kind='closed-late', scope='client-does-not-read'), desc + ' (bound %g: one command timeout for the reply in the way, one for the command that never comes)' % (2 * TC))]
+    return []
+
+
 def server_pair_cases():
     """a slow (but timely) earlier command line, then silence at a later one: the timeout must have been re-armed"""
     for session, spec in SESSIONS.items():
@@ -588,6 +626,13 @@ def configs(tier, seed):
 def run_config(cfg, tier, seed):
     res = Result()
     if cfg['part'] == 'server':
+        for session in (('plain', 'varied') if cfg.get('k', 0) == 0 else ()):
+            for n_noop in (0, 3, 40):
+                res.evaluations += 1
+                res.count('server_stalls')
+                res.interesting(('deaf-client', session, n_noop))
+                for sig, msg in judge_server_deaf(session, n_noop):
+                    res.violation(sig, msg, {'part': 'server-deaf', 'session': session, 'n_noop': n_noop})
         for i, case in enumerate(itertools.chain(server_cases(tier), server_pair_cases())):
             if i % cfg['of'] != cfg['k']:
                 continue
@@ -636,6 +681,11 @@ def vacuity(counters, tier):
 
 
 def replay(rep):
+    if rep['part'] == 'server-deaf':
+        vs = judge_server_deaf(rep['session'], rep['n_noop'])
+        if vs:
+            return True, vs[0][1]
+        return False, 'the session of a client that does not read its replies is closed in time'
     if rep['part'] == 'server':
         vs, _ = judge_server(tuple(rep['case']))
     elif rep['part'] == 'relay':
